@@ -616,7 +616,14 @@ func (m *Model) RunTextFlow(s *Sink, rule string) {
 			}
 		}
 		bad, undecided := "", ""
-		for _, cs := range [][3]byte{{'{', '{', '\\'}, {'{', '{', 'x'}, {'{', 'x', '\\'}, {'x', '{', '\\'}, {'{', 'x', 'x'}, {'x', '{', 'x'}, {'x', 'x', '\\'}, {'x', 'x', 'x'}} {
+		combos := [][3]byte{{'{', '{', '\\'}, {'{', '{', 'x'}, {'{', 'x', '\\'}, {'x', '{', '\\'}, {'{', 'x', 'x'}, {'x', '{', 'x'}, {'x', 'x', '\\'}, {'x', 'x', 'x'}}
+		// only a backslash escapes: every other byte in front of `{{` leaves it the start of code
+		for pv := 1; pv < 256; pv++ {
+			if pv != '\\' && pv != 'x' {
+				combos = append(combos, [3]byte{'{', '{', byte(pv)})
+			}
+		}
+		for _, cs := range combos {
 			if fChar < 0 {
 				undecided = "lexer.Lexer.char not found"
 				break
@@ -672,7 +679,7 @@ func (m *Model) RunTextFlow(s *Sink, rule string) {
 		case bad != "":
 			s.Violation(rule, key, m.Pos(abt.Pos()), "areBracesToken: %s — text loses a backslash that escapes nothing, or `{{` in text is (not) taken as the start of code", bad)
 		default:
-			s.OK(rule, key, m.Pos(abt.Pos()), "case evaluation over the 8 combinations of (current is '{', next is '{', previous is a backslash)")
+			s.OK(rule, key, m.Pos(abt.Pos()), "case evaluation over the 8 combinations of (current is '{', next is '{', previous is a backslash) and over every other byte in front of `{{`")
 		}
 	}
 	// literal -> output chain
